@@ -30,6 +30,7 @@ package scparser
 //@ ensures[jmp] result2 == nil && old(c.nextip) < len(c.prog) && (result0 == opcode.JMP || result0 == opcode.JMPIF || result0 == opcode.JMPIFNOT || result0 == opcode.CALL || result0 == opcode.ENDTRY) ==> len(result1) == 1
 //@ ensures[jmpl] result2 == nil && old(c.nextip) < len(c.prog) && (result0 == opcode.JMPL || result0 == opcode.JMPIFL || result0 == opcode.JMPIFNOTL || result0 == opcode.CALLL || result0 == opcode.ENDTRYL || result0 == opcode.PUSHA || result0 == opcode.SYSCALL) ==> len(result1) == 4
 //@ ensures[try] result2 == nil && old(c.nextip) < len(c.prog) && result0 == opcode.TRY ==> len(result1) == 2
+//@ ensures[jumplen] result2 == nil && old(c.nextip) < len(c.prog) && jmpLen(result0) > 0 ==> len(result1) == jmpLen(result0) && c.nextip == c.ip + 1 + len(result1)
 //@ ensures[tryl] result2 == nil && old(c.nextip) < len(c.prog) && result0 == opcode.TRYL ==> len(result1) == 8
 //@ ensures[data1] result2 == nil && old(c.nextip) < len(c.prog) && result0 == opcode.PUSHDATA1 ==> len(result1) == c.prog[c.ip+1]
 
@@ -38,9 +39,31 @@ package scparser
 //@ ensures[range] result2 == nil ==> 0 <= result0 && result0 <= len(c.prog) && result0 == c.ip + result1
 //@ ensures[short] result2 == nil && len(parameter) == 1 ==> result1 == ite(parameter[0] < 128, parameter[0], parameter[0] - 256)
 //@ ensures[len] result2 == nil ==> len(parameter) == 1 || len(parameter) == 4
+//@ ensures[long] result2 == nil && len(parameter) == 4 ==> result1 == ite(le32at(parameter, 0) < 2147483648, le32at(parameter, 0), le32at(parameter, 0) - 4294967296)
 
 //@ func (*Context).Jump
 //@ requires c != nil
 //@ panics-if pos < 0 || pos >= len(c.prog)
 //@ modifies c.nextip
 //@ ensures c.nextip == pos
+
+// Static check of jump targets: the decoding facts it relies on. An instruction that carries one
+// code offset (every jump, call, ENDTRY in both widths, and PUSHA) has a parameter of the matching
+// width right behind the opcode and its target is the instruction offset plus the signed parameter.
+// (IsScriptCorrect itself - targets recorded in one bit field, boundaries in another, subset test -
+// did not go through the solvers with a quantified invariant over both fields; it is covered by a
+// bounded stand-in instead, see /verif/bounded.json.)
+//@ import bitfield github.com/nspcc-dev/neo-go/pkg/util/bitfield
+//@ spec jmpLen(op opcode.Opcode) int = ite(op == opcode.JMP || op == opcode.JMPIF || op == opcode.JMPIFNOT || op == opcode.JMPEQ || op == opcode.JMPNE || op == opcode.JMPGT || op == opcode.JMPGE || op == opcode.JMPLT || op == opcode.JMPLE || op == opcode.CALL || op == opcode.ENDTRY, 1, ite(op == opcode.JMPL || op == opcode.JMPIFL || op == opcode.JMPIFNOTL || op == opcode.JMPEQL || op == opcode.JMPNEL || op == opcode.JMPGTL || op == opcode.JMPGEL || op == opcode.JMPLTL || op == opcode.JMPLEL || op == opcode.CALLL || op == opcode.ENDTRYL || op == opcode.PUSHA, 4, 0))
+//@ spec le32at(b []byte, p int) int = b[p] + b[p+1]*256 + b[p+2]*65536 + b[p+3]*16777216
+//@ spec rel(s []byte, p int) int = ite(jmpLen(opcode.Opcode(s[p])) == 1, ite(s[p+1] < 128, s[p+1], s[p+1] - 256), ite(le32at(s, p+1) < 2147483648, le32at(s, p+1), le32at(s, p+1) - 4294967296))
+
+//@ func NewContext
+//@ ensures result != nil && fresh(result) && result.nextip == pos && same(result.prog, b) && result.ip == 0
+
+//@ func (*Context).NextIP
+//@ inline
+
+//@ func GetTryParams
+//@ may-panic
+//@ ensures len(result0) + len(result1) == len(p)
